@@ -1,4 +1,65 @@
-From Coq Require Import List NArith.
-Theorem c01_placeholder : (1 + 1 = 2)%N.
-Proof. reflexivity. Qed.
-Print Assumptions c01_placeholder.
+(* C01  Hybrid cache never returns a stale or foreign value.
+   Stated on the one-key model of the hybrid cache (Hybrid/Engine.v): every history of insert / evict / remove /
+   lookup (start and finish are separate steps) / flusher steps (write+index, complete) / reclaim / drain /
+   graceful restart, in every interleaving.  "Foreign" values (hash collisions) are C17's. *)
+From Coq Require Import List NArith Bool.
+From FV Require Import Hybrid.Engine Hybrid.EngineInv Hybrid.EngineThms.
+Import ListNotations.
+Open Scope N_scope.
+
+(* Every lookup that is answered - from memory, from the write queue (keeper), from the device, or by an insert that
+   overtakes it - returns nothing or the version of the latest insert that no remove has followed.
+   [run_ok] restricts the histories to: no in-memory-only advice (outside C01), no remove while a disk lookup of the
+   key is in flight (open finding F14, see c01_known_F14), restarts only when recovery's winner is the latest
+   submission (see C15 / C07 / C10 for when that holds). *)
+Theorem c01_lookups_fresh : forall c l,
+  bug_rr c = false -> run_ok c init_k l ->
+  forall i r t, In (i, r, t) (kout (krun c init_k l)) -> r = None \/ r = t.
+Proof. exact lookups_fresh. Qed.
+Print Assumptions c01_lookups_fresh.
+
+(* the same for a lookup served on the spot in any reachable state *)
+Theorem c01_reachable_lookup : forall c l r,
+  bug_rr c = false -> run_ok c init_k l ->
+  lookup_now (krun c init_k l) = Some r -> ktruth (krun c init_k l) = Some r.
+Proof. exact reachable_lookup_fresh. Qed.
+Print Assumptions c01_reachable_lookup.
+
+(* the mechanism "disk index only replaced by an equal-or-higher sequence; index updated before the write-queue
+   reference is released": with an empty keeper, an address in the index belongs to the latest submission *)
+Theorem c01_index_is_latest : forall s sq v b,
+  Inv s -> kkeep s = None -> kidx s = Some (IAddr sq v b) ->
+  exists tsq, ktop s = Some (Some v, tsq) /\ kdone s = true.
+Proof. exact idx_hit_top. Qed.
+Print Assumptions c01_index_is_latest.
+
+(* across a graceful restart *)
+Theorem c01_reopen_lookup : forall c s b vis r,
+  bug_rr c = false -> KInv c s -> restart_ok c s b vis ->
+  lookup_now (kstep c s (KRestart b vis)) = Some r -> ktruth s = Some r.
+Proof. exact reopen_lookup_fresh. Qed.
+Print Assumptions c01_reopen_lookup.
+
+(* F15 (fixed by 3cca355): with reinsertions spread round-robin over the flushers the statement is false *)
+Theorem c01_refuted_F15 :
+  exists c l i v, bug_rr c = true /\ run_ok c init_k l /\ In (i, Some v, None) (kout (krun c init_k l)).
+Proof. exists f15_cfg, f15_hist, 7, 1. split; [reflexivity|]. split; [exact f15_hist_ok|exact f15_refuted]. Qed.
+Print Assumptions c01_refuted_F15.
+
+(* F14 (open): outside [run_ok] - a remove while a disk lookup of the key is in flight - a removed value is served *)
+Theorem c01_known_F14 :
+  exists c l i v, bug_rr c = false /\ ~ run_ok c init_k l /\ In (i, Some v, None) (kout (krun c init_k l)).
+Proof. exists f14_cfg, f14_hist, 8, 1. split; [reflexivity|]. split; [exact f14_hist_not_ok|exact f14_refuted]. Qed.
+Print Assumptions c01_known_F14.
+
+(* the hypotheses are satisfiable and the conclusion is not vacuous: a value travels memory -> queue -> device and
+   is served from each place; an update and a remove are observed *)
+Example c01_nonvacuous :
+  let c := mkCfg false true false true true false in
+  let l := [KIns LDefault; KLoadStart 1; KEvict; KLoadStart 2; KLoadFinish 2 Young; KEvict; KFlush 0; KComplete;
+            KLoadStart 3; KLoadFinish 3 Young; KIns LDefault; KLoadStart 4; KEvict; KDrain 1; KLoadStart 5; KLoadFinish 5 Young;
+            KEvict; KRm; KLoadStart 6; KLoadFinish 6 Young] in
+  run_ok c init_k l /\
+  kout (krun c init_k l) = [(1, Some 1, Some 1); (2, Some 1, Some 1); (3, Some 1, Some 1); (4, Some 2, Some 2);
+                            (5, Some 2, Some 2); (6, None, None)].
+Proof. vm_compute. repeat split; discriminate. Qed.
